@@ -131,6 +131,7 @@ type explorer struct {
 	choices  map[string]string
 	spec     int // >0 while a pure region is evaluated speculatively
 	condSet  map[string]bool
+	prefixKinds []byte
 	pathID   int64
 	curFn    map[*ssa.Function]bool
 	pathAssum map[string]bool
@@ -551,6 +552,43 @@ func (ex *explorer) concretize(fr *frame, s *symv, signed bool, limit int) int64
 	ex.taken = append(ex.taken, dec)
 	ex.addCond("(= " + s.term + " " + bvLit(uint64(dec), s.bits) + ")")
 	return dec
+}
+
+// tryConcretizeSmall: if s has at most 64 feasible values on this path, all within ±2^16, fork over them.
+func (ex *explorer) tryConcretizeSmall(fr *frame, s *symv, signed bool) (v int64, ok bool) {
+	if ex.spec > 0 {
+		return 0, false
+	}
+	// the narrow/wide verdict is a recorded (non-forking) decision so that re-execution stays in step
+	var isWide bool
+	if ex.replaying() {
+		isWide = ex.prefix[ex.pos] != 0
+	} else {
+		var wide string
+		if signed {
+			wide = "(or (bvsgt " + s.term + " " + bvLit(65536, s.bits) + ") (bvslt " + s.term + " " + bvLit(uint64(^uint64(65535)), s.bits) + "))"
+		} else {
+			wide = "(bvugt " + s.term + " " + bvLit(65536, s.bits) + ")"
+		}
+		r, _ := ex.check(wide, false)
+		isWide = r != "unsat"
+	}
+	ex.pos++
+	if isWide {
+		ex.taken = append(ex.taken, 1)
+		return 0, false
+	}
+	ex.taken = append(ex.taken, 0)
+	defer func() {
+		if r := recover(); r != nil {
+			if f, isF := r.(engineFault); isF && strings.HasPrefix(f.msg, "concretize:") {
+				v, ok = 0, false
+				return
+			}
+			panic(r)
+		}
+	}()
+	return ex.concretize(fr, s, signed, 64), true
 }
 
 // ---------------- undo log
